@@ -39,7 +39,7 @@ def rule(tier):
 
 
 def sizes(tier):
-    return {"pairs": 24_000, "per_doc": 400} if tier == "quick" else {"pairs": 1_500_000, "per_doc": 2000}
+    return {"pairs": 64_000, "per_doc": 400} if tier == "quick" else {"pairs": 1_500_000, "per_doc": 2000}
 
 
 def floors(tier):
@@ -121,7 +121,10 @@ def rand_format(rng, currencies, idx):
         if base in (2, 8, 16) and rng.random() < .5:
             kw["base_use_minus_sign"] = False
         v = float(rng.choice([0, 1, -1, 255, -255, 2 ** 31 - 1, -2 ** 31, 2 ** 31, -(2 ** 31) - 1, 2 ** 32, -(2 ** 32), 2 ** 40, -2 ** 40, rng.randint(-10 ** 9, 10 ** 9), rng.randint(-10 ** 13, 10 ** 13),
-                              rng.randint(-40, 40)]))
+                              rng.randint(-40, 40),
+                              # next to a power of two, where the width of a two's complement changes (|v| < 1e15: at most 15 digits)
+                              rng.choice([-1, 1]) * (2 ** rng.randint(1, 49) + rng.choice([-2, -1, 0, 1, 2, 3])),
+                              -(2 ** rng.randint(44, 49) + rng.choice([0, 1, 2]))]))
         if rng.random() < .3:
             # non-integers are rounded to the nearest integer by the format
             v = rng.choice([0.75, -0.75, 0.25, -0.25, 0.5, 1.5, 2.5, -0.5, 0.49, 0.51, 254.6, -254.6, 1e-9, 0.999999, 35.5, 4294967295.5,
